@@ -1092,7 +1092,7 @@ func testifyRun(c *Ctx, p *TPath, f, mock tfunc, ii, mi int, ms MShape, packed [
 				obj := p.Info.Uses[id]
 				nAssign := 0
 				ast.Inspect(lit.Body, func(x ast.Node) bool {
-					if as, ok := x.(*ast.AssignStmt); ok && len(as.Lhs) == 1 && len(as.Rhs) == 1 {
+					if as, ok := x.(*ast.AssignStmt); ok && (len(as.Lhs) == 1 || len(as.Lhs) == 2) && len(as.Rhs) == 1 {
 						if l, ok := as.Lhs[0].(*ast.Ident); ok && (p.Info.Uses[l] == obj || p.Info.Defs[l] == obj) {
 							if t2, ok := as.Rhs[0].(*ast.TypeAssertExpr); ok {
 								nAssign++
@@ -1124,8 +1124,8 @@ func testifyRun(c *Ctx, p *TPath, f, mock tfunc, ii, mi int, ms MShape, packed [
 			}
 		}
 		if nillable(at) && !underNilTest(ta, p.code(ta.X)) {
-			if _, commaOk := p.Info.Types[ta]; commaOk && false {
-				return
+			if isCommaOk(p.Info, ta) {
+				return // v, _ := args[i].(T) leaves the zero value for nil and cannot panic
 			}
 			bad("run-nil-assert", fmt.Sprintf("args[%d].(%s): the parameter type is nillable and the assertion is not under an 'args[%d] != nil' test, so passing nil panics inside Run", i, "<nillable type>", i), ta.Pos())
 		}
@@ -1181,7 +1181,7 @@ func testifyRun(c *Ctx, p *TPath, f, mock tfunc, ii, mi int, ms MShape, packed [
 							}
 						}
 					}
-					if !underNilTest(ta, a.Name) && nillable(at) {
+					if !underNilTest(ta, a.Name) && nillable(at) && !isCommaOk(p.Info, ta) {
 						bad("run-tail-nil", "variadic elements are asserted without a nil test", ta.Pos())
 					}
 					return true
@@ -1227,7 +1227,7 @@ func testifyRun(c *Ctx, p *TPath, f, mock tfunc, ii, mi int, ms MShape, packed [
 							return false
 						}
 					case *ast.AssignStmt:
-						if len(y.Lhs) == 1 && len(y.Rhs) == 1 {
+						if (len(y.Lhs) == 1 || len(y.Lhs) == 2) && len(y.Rhs) == 1 {
 							l, _ := y.Lhs[0].(*ast.Ident)
 							ta, _ := y.Rhs[0].(*ast.TypeAssertExpr)
 							if l != nil && ta != nil && (p.Info.Uses[l] == vobj || p.Info.Defs[l] == vobj) {
@@ -1262,6 +1262,12 @@ func testifyRun(c *Ctx, p *TPath, f, mock tfunc, ii, mi int, ms MShape, packed [
 	if ok {
 		c.OK("R03.7", "testify|run", "", name)
 	}
+}
+
+// isCommaOk: is the assertion used in its two-value form (which never panics)?
+func isCommaOk(info *types.Info, ta *ast.TypeAssertExpr) bool {
+	_, tuple := info.Types[ta].Type.(*types.Tuple)
+	return tuple
 }
 
 // nillable mirrors the language rule: types whose zero value is nil and which
